@@ -70,6 +70,7 @@ type Delivery struct {
 	Trail    []string `json:"trail"`
 	ReadOnly bool     `json:"read_only"`
 	Items    int      `json:"items"`
+	Refused  bool     `json:"refused,omitempty"` // the exporter refused this call (fail_first)
 	// Only for exporters configured with keep: bytes at call time, the retained payload and (after
 	// Env.Settle) its bytes at the end.
 	AtCall  []byte  `json:"-"`
